@@ -47,12 +47,14 @@ func NewHealthCheck(consumer HealthCheckConsumer, endpoint *url.URL, interval ti
 		cancel: cancel,
 	}
 
+	verifEmit("hc_new", hc, consumer)
 	go hc.run()
 	return hc
 }
 
 func (hc *HealthCheck) Close() {
 	hc.cancel()
+	verifEmit("hc_close", hc)
 }
 
 // Private
